@@ -61,6 +61,14 @@ CHECKS = {
          "Exploration (fault sequences): generated sequences of calls whose inner outcome is ready Ok/Err or pending-then-Ok/Err, polled in a generated order with several requests in flight; admitted iff Sentinel admits, inner call count, rejection output (fallback or Err) and the return of the in-flight count after Ok and after Err are checked after every step.",
          "Trusted: tower crate only (tonic not buildable offline); dropped futures are reported, not judged.",
          "5/C20"),
+ "C08": ("proptest demand profiles on wall-second-aligned grids; trajectory invariants over admissions per second (no re-implementation of the token formula)",
+         "Exploration: generated (q, cold factor, period, grid) and multi-phase demand profiles (saturating, mid, below q/c, idle with gaps around 2p); per-second admission counts must satisfy the statement's invariants: never above q per window, never below about q/c when saturated, monotone ramp reaching q within 2p+2 s, cold again after >= 2p idle seconds, no rejection below q/c.",
+         "Trusted: virtual clock; wall-second alignment; one-admission slack for integer truncation (q >= 10c as quantified).",
+         "5/C08"),
+ "C11": ("proptest differential / metamorphic: same script with and without an inserted reload on fresh resources at the same virtual instants; Arc::ptr_eq of controllers/breakers; threshold->0 / ->1e9 probes",
+         "Exploration: eight scenarios (flow global/private window, throttling, warm-up, hotspot QPS reject/throttling/concurrency, circuit breaker) x reload position x reload API x treatment of unrelated resources x id refresh/reordering; the observation sequence (admission, block type, time slept, breaker states) must equal the reload-free run, enforcing objects must be the same Arc, and a changed threshold must act on the very next entry.",
+         "Trusted: virtual clock; both runs start at the same bucket phase; a second rule only where evaluation order of a resource's rules cannot matter.",
+         "5/C11"),
 }
 ALL = ["C%02d" % i for i in range(1, 21)]
 NOT_YET = "check not built yet in this round (planned, see DESIGN.md section 5)"
